@@ -111,3 +111,35 @@ def guarded(run, fn, *a):
         fn(*a)
     except AnalysisBroken as e:
         run.broke(str(e))
+
+
+def callee_param_types(prog, call):
+    """canonical parameter types of the (statically resolved) callee of a call/construct node"""
+    c = call.get("callee") or call.get("ctor")
+    if not c:
+        return None
+    mn = c["mn"]
+    f = prog.functions.get(mn)
+    if f is not None:
+        return [p["ct"] for p in f.params]
+    r, m = prog.method_decl(mn)
+    if m is not None:
+        return [p["ct"] for p in m["params"]]
+    d = prog.fdecls.get(mn)
+    if d is not None:
+        return [p["ct"] for p in d["params"]]
+    return None
+
+
+def strip_value(f, n):
+    """strip parens, implicit and explicit casts, and the `(x != 0)` / `0 != x` int-to-bool idiom"""
+    n = f.strip(n)
+    while n is not None and n["k"] in ("CXXConstructExpr", "CXXTemporaryObjectExpr") and len(f.args(n)) == 1:
+        n = f.strip(f.args(n)[0])   # implicit conversion such as const char* -> SimpleString
+    if n is not None and n["k"] == "BinaryOperator" and n.get("op") == "!=":
+        l, r = f.strip(f.node(n["lhs"])), f.strip(f.node(n["rhs"]))
+        if r is not None and r["k"] == "IntegerLiteral" and r.get("v") == 0:
+            return l, True
+        if l is not None and l["k"] == "IntegerLiteral" and l.get("v") == 0:
+            return r, True
+    return n, False
